@@ -57,7 +57,7 @@ RULE = ('per case one lens and one (pupil sampling N, grid) pair; every listed (
         'evaluated. Lenses: random axially symmetric refracting prescriptions from the constraint-based generator '
         '(2-7 interfaces, spheres/conics/planes, ideal and catalogue media, positive power, image in air at the '
         'paraxial focus, infinite and finite conjugates, EPD/imageFNO/objectNA apertures re-scaled to a working '
-        'F-number in [3,12] (15% of the draws keep slower systems up to f/150), fields <= 3 deg or the equivalent object height, 1-3 wavelengths), optionally defocused '
+        'F-number in [3,12], 5% erecting relays (two singlets, real intermediate image, m > 0, f/7-f/12), fields <= 3 deg or the equivalent object height, 1-3 wavelengths), optionally defocused '
         'by 0-30 waves through the last thickness; analytically perfect systems (paraboloid mirror and plano-hyperbolic '
         'singlet k=-n^2 at infinity, ellipsoid mirror between its foci) incl. a fixed enumeration of sampling/grid '
         'parities; a few bundled samples. N uniform in 16..256 (quick 16..128), both parities; grid from '
@@ -65,7 +65,7 @@ RULE = ('per case one lens and one (pupil sampling N, grid) pair; every listed (
         'pixels per case capped (2048 thorough only). Family per case: PSF / FFT-MTF / geometric MTF / all three on '
         'perfect systems. Non-trivial: >= 100 pupil samples in the mask and (>= 2 powered interfaces or a perfect '
         'system); distinct = distinct case hash')
-TIERS = {'quick': dict(shards=12, cases=30, budget_s=55), 'thorough': dict(shards=16, cases=190, budget_s=460)}
+TIERS = {'quick': dict(shards=12, cases=24, budget_s=55), 'thorough': dict(shards=16, cases=150, budget_s=460)}
 MIN_NONTRIVIAL = {'quick': 60, 'thorough': 1200}
 MIN_EVALS = {
     'psf-nonnegative': {'quick': 60, 'thorough': 1500}, 'psf-shape': {'quick': 60, 'thorough': 1500},
@@ -207,8 +207,7 @@ def gen_lens(rng):
         bfd = -float(ya[-2]) / float(ua[-2])
         if abs(spec['surfaces'][-2]['t'] - bfd) > 1e-6 * max(1.0, abs(bfd)):
             continue                                      # generator fell back to a non-focal image plane
-        slow_ok = rng.random() < 0.15       # a share of slow (high-magnification) systems: erect real images live there
-        if not np.isfinite(fno) or fno > (150.0 if slow_ok else 14.0):
+        if not np.isfinite(fno) or fno > 14.0:
             continue
         target = float(rng.uniform(3.0, 12.0))
         if fno < target:                                  # stop down (never open up: ray heights stay inside)
@@ -223,6 +222,36 @@ def gen_lens(rng):
             spec['aperture'] = [typ, round(float(val), 9)]
         return spec, info
     raise RuntimeError('no lens within the speed window')
+
+
+def gen_relay(rng):
+    """Erecting relay: two biconvex singlets with a real intermediate image (finite conjugates, m > 0)."""
+    for _ in range(100):
+        n1, n2 = round(float(rng.uniform(1.45, 1.8)), 4), round(float(rng.uniform(1.45, 1.8)), 4)
+        f1, f2 = float(rng.uniform(30, 80)), float(rng.uniform(30, 80))
+        R1, R2 = round(2 * (n1 - 1) * f1, 4), round(2 * (n2 - 1) * f2, 4)
+        s1 = f1 * float(rng.uniform(1.6, 3.0))
+        s1p = 1.0 / (1.0 / f1 - 1.0 / s1)
+        gap = s1p + f2 * float(rng.uniform(1.6, 3.0))
+        wl = round(float(rng.uniform(0.45, 0.7)), 4)
+        surfaces = [dict(type='standard', radius=R1, t=3.0, medium={'n': n1}, stop=True),
+                    dict(type='standard', radius=-R1, t=round(gap, 4), medium='air'),
+                    dict(type='standard', radius=R2, t=3.0, medium={'n': n2}),
+                    dict(type='standard', radius=-R2, t=1.0, medium='air'),
+                    dict(type='standard', radius='inf', t=0.0, medium='air')]
+        spec = dict(BASE, obj_t=round(s1, 4), surfaces=surfaces, aperture=['EPD', 1.0], field_type='object_height',
+                    fields=[[0.0, 0.0, 0.0], [round(0.01 * s1, 4), 0.0, 0.0]], wavelengths=[[wl, True]])
+        P = L.psys(spec)
+        ya, ua = P.marginal(1.0)
+        bfd = -float(ya[-2]) / float(ua[-2])
+        if not (0.3 * f2 < bfd < 20 * f2):
+            continue
+        surfaces[-2]['t'] = round(bfd, 9)
+        fno = working_fno(spec)[0]                         # for EPD = 1
+        spec['aperture'] = ['EPD', round(fno / float(rng.uniform(7.0, 12.0)), 6)]
+        info = dict(power='neg', finite=True, mirrors=0, stop='first', ap='EPD', field='object_height', K=4, relay=True)
+        return spec, info
+    raise RuntimeError('no relay lens')
 
 
 def lens_points(spec, rng, max_points):
@@ -281,7 +310,7 @@ def gen_case(rng, tier, i):
         which, p = random_perfect(rng)
         return dict(kind='perfect', family='all', which=which, params=p, N=N, grid=grid, points=[[0.0, p['wl']]],
                     geo=geo, view_psf=bool(rng.random() < 0.2))
-    spec, info = gen_lens(rng)
+    spec, info = gen_relay(rng) if rng.random() < 0.05 else gen_lens(rng)
     fno = working_fno(spec)[0]
     dw = 0.0
     if rng.random() < 0.5:                                 # defocus, 0.05 .. 30 waves (log-uniform), either sign
@@ -347,7 +376,9 @@ class Ctx:
         typ, val = spec['aperture']
         epd = L.epd_of(spec, P)
         f2 = float(P.f2())
-        fno_inf = float(val) if typ == 'imageFNO' else f2 / epd
+        # paraxial.FNO() as built: f2()/EPD with f2() = |f2| (C04 finding `negative-power`; only erecting relays have
+        # negative power here, and for them the true value below never involves f2)
+        fno_inf = float(val) if typ == 'imageFNO' else abs(f2) / epd
         self.fno_inf = fno_inf
         self.fno_lib = fno_inf
         self.m_over_p = 0.0
@@ -413,7 +444,7 @@ def sample_pupil(lens, hy, wl, N, rec):
 
 
 def choose_law(ctx, rec, pup, lib_psf):
-    """The candidate pupil whose as-built PSF reproduces the library's; the physical one when none does."""
+    """The candidate pupil whose as-built PSF reproduces the library's; the documented one when none does."""
     if len(pup['laws']) == 1:
         return pup
     lib_psf = np.asarray(lib_psf)
@@ -423,7 +454,7 @@ def choose_law(ctx, rec, pup, lib_psf):
             rec.cls('amplitude-law-' + cand['law'])
             return cand
     rec.cls('amplitude-law-undetermined')
-    return pup
+    return pup['laws'][-1]                                 # the documented law; psf-equals-dft will report the mismatch
 
 
 def class_flags(rec, ctx, fam):
@@ -607,7 +638,7 @@ def check_mtf(ctx, rec, wl, hys):
         x_want = k * nu_c / (N - 1)
         x_model = k * (g / N) / (wl * ctx.fno_lib)
         fl = tuple(f for f, on in ((M_AXIS, ctx.axis_grid), (M_FNO, ctx.fno_abs)) if on)
-        axis_ok_model, _ = same(x_lib, x_model, 1e-9, scale=max(float(x_model.max()), 1e-300))
+        axis_ok_model, _ = same(x_lib, x_model, 1e-9, scale=max(maxabs(x_model), 1e-300))
         r = maxabs((x_lib[1:] - x_want[1:]) / x_want[1:]) if len(k) > 1 else 0.0
         ok = len(k) > 1 and x_lib[0] == 0.0 and r <= 2.0 / N
         judge(rec, 'mtf-frequency-axis', ok, fl, axis_ok_model, resid=r, tol=2.0 / N,
@@ -618,7 +649,7 @@ def check_mtf(ctx, rec, wl, hys):
             if not np.array_equal(xx, x_lib):
                 raise RuntimeError('view() drew curves against different x-data')
         n_lin = len(lib.mtf[0][0])
-        rec.event('mtf_axis_equals_linspace_0_maxfreq' if same(x_lib, np.linspace(0, mf, n_lin), 1e-6, scale=mf)[0]
+        rec.event('mtf_axis_equals_linspace_0_maxfreq' if same(x_lib, np.linspace(0, mf, n_lin), 1e-6, scale=max(abs(mf), 1e-300))[0]
                   else 'mtf_axis_differs_from_linspace_0_maxfreq')
     for i, hy in enumerate(hys):
         pup = choose_law(ctx, rec, pups[i], lib.psf[i])
@@ -742,7 +773,7 @@ def check_case(case, rec):
     ctx = Ctx(lens, spec, case)
     fam = case['family']
     class_flags(rec, ctx, fam)
-    if ctx.N >= 12 and (ctx.perfect or ctx.powered >= 2):
+    if ctx.N >= 12 and (ctx.perfect or ctx.powered >= 2):    # >= 100 samples in the mask for every N >= 12
         rec.nontrivial_case()
     pts = [[float(hy), resolve_wl(lens, wl)] for hy, wl in case['points']]
     wls = []
